@@ -322,6 +322,10 @@ func genC18(t *rapid.T) c18Case {
 			if chance(t, "generated-name", 3) {
 				nm = rapid.StringMatching(`[a-z0-9]([a-z0-9-]{0,6}[a-z0-9])?(\.[a-z0-9]{1,5}){1,2}`).Draw(t, "gname")
 			}
+			if chance(t, "non-ascii-name", 10) {
+				// after an address any token is a name; these hold the bytes 0xA0 / 0x85 inside a character
+				nm = pick(t, "na-name", []string{"voilà.example.org", "хост.example.org", "àà.example", "х.х"})
+			}
 			c.Names = append(c.Names, nm)
 			c.Seps = append(c.Seps, c18WS(t, "sep"))
 		}
